@@ -37,59 +37,6 @@ type Case struct {
 	Reqs   []Req         `json:"reqs"`
 }
 
-func verbsOverlap(a, b string) bool {
-	return a == "*" || b == "*" || strings.EqualFold(a, b)
-}
-
-// conflictFree drops every method that collides with an earlier one on the
-// same trie position and verb.
-func conflictFree(rs route.RuleSet) route.RuleSet {
-	type pos struct{ key, verb string }
-	var seen []struct {
-		pos
-		svc int
-	}
-	var out route.RuleSet
-	for _, mr := range rs {
-		ok := true
-		var mine []pos
-		for _, b := range mr.Bindings {
-			tm, err := ref.ParseTemplate(b.Tmpl)
-			if err != nil {
-				ok = false
-				break
-			}
-			p := pos{tm.PositionKey(), b.Verb}
-			for _, s := range seen {
-				if s.key == p.key && verbsOverlap(s.verb, p.verb) {
-					ok = false
-				}
-			}
-			// within one method a "*" binding and a specific verb on the
-			// same node interact with registration order (checked by C16);
-			// keep methods internally non-overlapping here.
-			for _, q := range mine {
-				if q.key == p.key && verbsOverlap(q.verb, p.verb) {
-					ok = false
-				}
-			}
-			mine = append(mine, p)
-		}
-		if !ok {
-			continue
-		}
-		svc := len(out)
-		for _, p := range mine {
-			seen = append(seen, struct {
-				pos
-				svc int
-			}{p, svc})
-		}
-		out = append(out, mr)
-	}
-	return out
-}
-
 func rotated(rs route.RuleSet, rot []int) route.RuleSet {
 	out := make(route.RuleSet, len(rs))
 	for i, mr := range rs {
@@ -314,7 +261,7 @@ func topFrame(stack string) string {
 }
 
 func genCase(t *rapid.T) Case {
-	rs := conflictFree(route.GenOverlappingRuleSet(t, route.GenOpts{StarStarOnlyLast: true}, 6))
+	rs := route.ConflictFree(route.GenOverlappingRuleSet(t, route.GenOpts{StarStarOnlyLast: true}, 6))
 	c := Case{Rules: rs}
 	if len(rs) == 0 {
 		return c
